@@ -20,7 +20,7 @@ pub fn def() -> PropDef {
     PropDef {
         id: "C13",
         level: "model_checking",
-        rule: "(a) every sequence of length <= d over {remote insert of an entry of a two-author universe, remove-and-recreate the document}; after the last step get_latest_for_each_author and has_news_for_us(h) for every peer report h in {absent,0,T1,T2,T3}^2 are compared with the heads of the reference replica; (b) AuthorHeads::encode/decode for every set of <= 4 authors with timestamps from {0,1,2,127,128,16383,16384} (equal timestamps included) under every size limit from 1 to unlimited length + 1 and without limit, plus one set of 200 heads (the length prefix of the encoding grows to two bytes at 128) under every limit in the window that keeps 120..136 heads; (c) the head set as a data structure: every sequence of <= 4 inserts over 3 authors x timestamps {0,1,2,u64::MAX}: get/len/iter equal the per-author maximum, and for every split of the sequence into two sets merge is the pointwise maximum, has_news_for counts exactly the strictly newer or unknown authors, encode/decode returns the set; non-trivial (a) = the sequence holds two entries of one author with different timestamps or a removal after an insert, (b) = at least two authors",
+        rule: "(a) every sequence of length <= d over {remote insert of an entry of a two-author universe, remove-and-recreate the document}; after the last step get_latest_for_each_author and has_news_for_us(h) for every peer report h in {absent,0,T1,T2,T3}^2 are compared with the heads of the reference replica; (b) AuthorHeads::encode/decode for every set of <= 4 authors with timestamps from {0,1,2,127,128,16383,16384} (equal timestamps included) under every size limit from 1 to unlimited length + 1 and without limit, plus one set of 200 heads (the length prefix of the encoding grows to two bytes at 128) under every limit in the window that keeps 120..136 heads; (c) the head set as a data structure: every sequence of <= 4 inserts over 3 authors x timestamps {0,1,2,u64::MAX}: get/len/iter equal the per-author maximum, and for every split of the sequence into two sets merge is the pointwise maximum, has_news_for counts exactly the strictly newer or unknown authors, encode/decode returns the set; (d) a neighbour's sync report delivered to an idle real LiveActor (on_actor_message -> on_sync_report) for 3 document states x {absent,0,T1,T2,T3}^2 reports x {synced, unsynced document} leads to a dial exactly when it is news; non-trivial (a) = the sequence holds two entries of one author with different timestamps or a removal after an insert, (b) = at least two authors",
         assumptions: &[
             "size limit 0 is excluded: no postcard sequence fits into zero bytes",
             "where several keys attain an author's maximal timestamp any of them is accepted as the head's key",
@@ -443,9 +443,72 @@ fn check_algebra(seq: &[(u8, u64)]) -> (Vec<(&'static str, Value, String)>, u64)
     (bad, calls)
 }
 
+/// (d) The engine's use of the comparison: a neighbour's sync report delivered to an idle live
+/// actor (decoded and compared with the document's heads by the real `on_sync_report`) leads to a
+/// dial exactly when it is news for the document as held.
+fn check_engine_reports(report: &mut Report) {
+    let states: [Vec<Spec>; 3] = [
+        vec![],
+        vec![Spec::new(0, 1, b"b", 1, Val::X)],
+        vec![Spec::new(0, 1, b"b", 1, Val::X), Spec::new(0, 0, b"ab", 3, Val::Del)],
+    ];
+    let ts_of = |h: u8| match h {
+        1 => 0,
+        h => T0 + (h as u64 - 1),
+    };
+    for extra in &states {
+        for h0 in 0..5u8 {
+            for h1 in 0..5u8 {
+                for report_ns in [0u8, 1] {
+                    let mut heads = vec![];
+                    if h0 > 0 {
+                        heads.push((0u8, ts_of(h0)));
+                    }
+                    if h1 > 0 {
+                        heads.push((1u8, ts_of(h1)));
+                    }
+                    report.evaluations += 1;
+                    report.traces += 1;
+                    report.transitions += 1;
+                    let case = json!({"engine_report": {"extra": extra, "ns": report_ns, "heads": heads}});
+                    match catch(|| super::c11::sync_report_dials(extra, report_ns, &heads)) {
+                        Err(p) => report.violation("no_panic", json!({"engine": true}), case, format!("panic: {p}"), 0),
+                        Ok((dialed, held)) => {
+                            let mut ours: BTreeMap<AuthorId, u64> = BTreeMap::new();
+                            for (a, t) in held {
+                                let e = ours.entry(a).or_insert(0);
+                                *e = (*e).max(t);
+                            }
+                            // document 1 is not in the sync set: its reports are ignored
+                            let news = report_ns == 0
+                                && heads.iter().any(|(a, t)| ours.get(&author_id(*a)).map(|o| t > o).unwrap_or(true));
+                            if news {
+                                report.nontrivial += 1;
+                            }
+                            if dialed != news {
+                                report.violation(
+                                    "engine_dials_exactly_on_news",
+                                    json!({"dialed": dialed}),
+                                    case,
+                                    format!("report {heads:?} for document {report_ns}, document holds heads {:?}: dialed={dialed}, news={news}", ours.values().collect::<Vec<_>>()),
+                                    0,
+                                );
+                            }
+                        }
+                    }
+                }
+            }
+        }
+    }
+}
+
 fn run(ctx: &Ctx, report: &mut Report) {
     crate::util::silence_panics();
     let mut ordinal = 0u64;
+    // (d)
+    if ctx.shard == 1 % ctx.of {
+        check_engine_reports(report);
+    }
     // (c)
     let alg: Vec<(u8, u64)> = (0..3u8).flat_map(|a| ALG_TS.iter().map(move |t| (a, *t))).collect();
     for depth in 1..=4 {
@@ -573,6 +636,23 @@ fn replay(case: &Value) -> anyhow::Result<(bool, String)> {
             Ok((bad, _)) => {
                 let out: String = bad.iter().map(|(o, _, d)| format!("FAILED {o}: {d}\n")).collect();
                 Ok((!bad.is_empty(), out))
+            }
+        };
+    }
+    if let Some(h) = case.get("engine_report") {
+        let extra: Vec<Spec> = serde_json::from_value(h["extra"].clone())?;
+        let heads: Vec<(u8, u64)> = serde_json::from_value(h["heads"].clone())?;
+        let nsx = h["ns"].as_u64().unwrap_or(0) as u8;
+        return match catch(|| super::c11::sync_report_dials(&extra, nsx, &heads)) {
+            Err(p) => Ok((true, format!("panic: {p}"))),
+            Ok((dialed, held)) => {
+                let mut ours: BTreeMap<AuthorId, u64> = BTreeMap::new();
+                for (a, t) in held {
+                    let e = ours.entry(a).or_insert(0);
+                    *e = (*e).max(t);
+                }
+                let news = nsx == 0 && heads.iter().any(|(a, t)| ours.get(&author_id(*a)).map(|o| t > o).unwrap_or(true));
+                Ok((dialed != news, format!("report {heads:?} for document {nsx}; document heads {:?}; dialed={dialed} news={news}\n", ours.values().collect::<Vec<_>>())))
             }
         };
     }
